@@ -423,6 +423,10 @@ func (loader *Loader) resolveComponent(doc *T, ref string, path *url.URL, resolv
 			if cursor == nil {
 				return nil, failedToResolveRefFragmentPart(ref, pathPart)
 			}
+			// an absent field of pointer type (e.g. a schema without "not" or "items") is not there either
+			if v := reflect.ValueOf(cursor); v.Kind() == reflect.Ptr && v.IsNil() {
+				return nil, failedToResolveRefFragmentPart(ref, pathPart)
+			}
 		}
 		return cursor, nil
 	}
